@@ -2,7 +2,7 @@
 from vf import rt, scen, world as W
 from vf.commands import C
 from vf.runner import CH
-from harness import common as K
+from harness import common as K, kpair
 
 PARTITION = None
 MOD = 'harness.c12'
@@ -202,7 +202,7 @@ def w_main(pat: int, eset: int, shift: int, dupe: bool) -> str:
 
 
 def obligations(tier):
-    return [
+    return kpair.obligations(tier) + [
         CH('K_filter_glue_all_strings', MOD, 'k_glue', timeout=240, engine='K', regime='traced',
            encodes=['trashcli.rm.filter.Filter.matches'], stubs=['fnmatch.fnmatchcase -> recorder'],
            bounds='pattern: any str 1<=len<=3; location: any absolute str len<=5'),
